@@ -79,8 +79,10 @@ def _key(k):  # noqa: ANN001, ANN202
     return tuple(k) if isinstance(k, list) else k
 
 
-def run_workload(wl: dict, cache_dir: Path | None, logpath: str):  # noqa: ANN201
-    """Execute the workload once in this process; returns a canonical result structure."""
+def run_workload(wl: dict, cache_dir: Path | None, logpath: str, *, mutate: bool = False):  # noqa: ANN201
+    """Execute the workload once in this process; returns a canonical result structure.
+    mutate=True: afterwards the caller changes the returned results in place (as a user
+    normalising a frame would)."""
     import numpy as np
     import pandas as pd
     from mxlpy import scan
@@ -93,7 +95,12 @@ def run_workload(wl: dict, cache_dir: Path | None, logpath: str):  # noqa: ANN20
     if kind == "parallelise":
         inputs = [(_key(o["key"]), (logpath, _key(o["key"]), o["size"])) for o in wl["ops"]]
         res = parallelise(cache_work, inputs, cache=cache, parallel=wl["parallel"], max_workers=wl["W"], disable_tqdm=True)
-        return [[canon(k), digest_of(canon(v["tag"])), v["n"], digest_of(v["blob"].hex())] for k, v in res]
+        out = [[canon(k), digest_of(canon(v["tag"])), v["n"], digest_of(v["blob"].hex())] for k, v in res]
+        if mutate:
+            for _, v in res:
+                v["n"] = -1
+                v["tag"] = "mutated by the caller"
+        return out
     if kind in ("scan_time_course", "scan_steady_state", "mc_time_course", "scan_protocol"):
         vals = [o["value"] for o in wl["ops"]]
         idx = [_key(o["key"]) for o in wl["ops"]]
@@ -126,8 +133,66 @@ def run_workload(wl: dict, cache_dir: Path | None, logpath: str):  # noqa: ANN20
                 _chain_model(), to_scan=to_scan, cache=cache, parallel=wl["parallel"],
                 worker=partial(logged_ss_worker, logpath=logpath),
             )
-        return [canon(r.variables.round(9)), canon(r.fluxes.round(9))]
+        out = [canon(r.variables.round(9)), canon(r.fluxes.round(9))]
+        if mutate:
+            raws = r.raw_results.values() if isinstance(r.raw_results, dict) else r.raw_results
+            for sim in raws:
+                for frame in sim.raw_variables:
+                    frame *= 2.0
+        return out
     raise HarnessError(f"unknown workload {kind}")
+
+
+def session_run(wl: dict, base: Path) -> dict:
+    """Several cached runs inside ONE process (forked child), with the caller mutating the
+    returned results in place and the cache directory being wiped and reused for a changed
+    computation in between: anything remembered in memory instead of read from disk shows."""
+    r, w = os.pipe()
+    pid = os.fork()
+    if pid == 0:
+        code = 0
+        try:
+            os.close(r)
+            if wl["parallel"]:
+                simpool.install(simpool.PoolPlan(workers=wl["W"], seed=wl.get("pool_seed", 0)))
+            out: dict = {"steps": []}
+            d = base / "sess"
+            log = str(base / "log-sess")
+
+            def variant(k: int) -> dict:
+                w2 = copy.deepcopy(wl)
+                for o in w2["ops"]:
+                    if "size" in o:
+                        o["size"] = o["size"] + 3 * k
+                    else:
+                        o["value"] = o["value"] + 0.5 * k
+                return w2
+
+            try:
+                for step, (k, wipe, mutate) in enumerate([(0, False, False), (0, False, True), (0, False, False), (1, True, False), (1, False, False)]):
+                    if wipe:
+                        shutil.rmtree(d, ignore_errors=True)
+                    wk = variant(k)
+                    ref = run_workload(wk, None, log)
+                    res = run_workload(wk, d, log, mutate=mutate)
+                    out["steps"].append({"k": k, "wipe": wipe, "mutated_before_next": mutate, "equal": res == ref})
+                out["status"] = "ok"
+            except Exception as e:  # noqa: BLE001
+                out["status"] = "exc"
+                out["exc"] = type(e).__name__
+            with os.fdopen(w, "wb") as f:
+                pickle.dump(out, f)
+        except BaseException:  # noqa: BLE001
+            code = 3
+        finally:
+            os._exit(code)
+    os.close(w)
+    with os.fdopen(r, "rb") as f:
+        data = f.read()
+    _, status = os.waitpid(pid, 0)
+    if os.waitstatus_to_exitcode(status) != 0 or not data:
+        raise HarnessError("session child failed")
+    return pickle.loads(data)  # noqa: S301
 
 
 def _count_log(logpath: str) -> int:
@@ -313,6 +378,20 @@ class History:
         shutil.rmtree(d, ignore_errors=True)
         return out
 
+    def session_history(self) -> None:
+        mode = "pool" if self.wl["parallel"] else "seq"
+        out = session_run(self.wl, self.base)
+        self.trace.add("session", out.get("status"), [(st["k"], st["wipe"], st["equal"]) for st in out["steps"]])
+        self.counters["in_process_sessions"] += 1
+        if out["status"] != "ok":
+            self._viol("cached_run_failed", ["cached_run_failed", self.wl["kind"], mode, "session:" + out.get("exc", "?")], f"a cached run inside a multi-run session raised {out.get('exc')}")
+            return
+        for i, st in enumerate(out["steps"]):
+            if not st["equal"]:
+                why = "after_wipe_and_reuse" if st["k"] == 1 else ("after_caller_mutated_results" if i >= 2 else "plain")
+                self._viol("cache_not_transparent", ["cache_not_transparent", self.wl["kind"], mode, f"session:{why}"], f"cached run {i} of one process ({why}) differs from the run without cache")
+                return
+
     def crash_history(self, kills: list[dict], tag: str) -> None:
         d = self.base / f"c-{tag}"
         log = str(self.base / f"log-{tag}")
@@ -426,6 +505,8 @@ class CrashMachine(Machine):
             h.reference()
             dry = h.dry()
             if not h.stop() and dry.get("status") == "ok":
+                h.session_history()
+            if not h.stop() and dry.get("status") == "ok":
                 kills, exhaustive = self._kill_list(rng, wl, dry, tier)
                 h.counters["kill_points"] += len(kills)
                 h.counters["workloads_exhaustive_line_points" if exhaustive else "workloads_sampled_line_points"] += 1
@@ -450,6 +531,8 @@ class CrashMachine(Machine):
         try:
             h.reference()
             h.dry()
+            if not case.get("kills"):
+                h.session_history()
             if case.get("kills"):
                 h.crash_history(case["kills"], "r")
         finally:
